@@ -15,7 +15,7 @@ def sh(cmd, cwd=None, timeout=1800):
 
 def notes_section(notes, which):
     # best effort: the part of notes.md that talks about this change
-    m = re.split(r"(?im)^#+\s*(?:change\s*)?([AB])\b.*$", notes)
+    m = re.split(r"(?im)^#+\s*(?:change\s*)?([ABC])\b.*$", notes)
     for i in range(1, len(m) - 1, 2):
         if m[i].upper() == which:
             return m[i + 1].strip()[:1500]
@@ -24,6 +24,10 @@ def notes_section(notes, which):
 
 def main():
     ids = sys.argv[1:]
+    rnd = ""
+    if ids[:1] == ["--round"]:
+        rnd = ids[1]
+        ids = ids[2:]
     sh(f"git -C /repo worktree remove --force {WT}")
     rc, out = sh(f"git -C /repo worktree add --detach {WT} HEAD")
     if rc != 0:
@@ -32,12 +36,12 @@ def main():
     env_off = "CARGO_NET_OFFLINE=true "
     try:
         for pid in ids:
-            src = f"/tmp/mut-{pid}-out"
+            src = f"/tmp/mut{rnd}-{pid}-out"
             if not os.path.isdir(src):
                 print(pid, "no output dir")
                 continue
             notes = open(os.path.join(src, "notes.md")).read() if os.path.exists(os.path.join(src, "notes.md")) else ""
-            for which in "AB":
+            for which in ("ABC" if rnd else "AB"):
                 patch = os.path.join(src, f"{which}.patch")
                 demos = [f for f in os.listdir(src) if f.lower().startswith(f"demo_{which.lower()}")]
                 if not os.path.exists(patch) or not demos:
@@ -46,7 +50,7 @@ def main():
                 demos.sort(key=lambda f: (not f.endswith(".sh"), f))  # a shell driver, when present, is the demonstration
                 demo = os.path.join(src, demos[0])
                 companions = [os.path.join(src, f) for f in demos[1:]]
-                sid = f"{pid}-{which}"
+                sid = f"{pid}-{which}" if not rnd else f"{pid}-R{rnd}{which}"
                 sh("git checkout -- . && git clean -fdq tests examples", cwd=WT)
                 rc, out = sh(f"git apply {patch}", cwd=WT)
                 if rc != 0:
